@@ -56,7 +56,15 @@ Inductive xstep :=
 | XFontPage (p : Z)
 | XSetFontA (p : Z) | XSetFontS (i : Z) | XAddFontA (p : Z)
 | XRemFont (s : Z) | XFontSlot (a b : Z) | XReplFont (a b : Z)
-| XIce (m : Z) | XPalMode (m : Z).
+| XIce (m : Z) | XPalMode (m : Z)
+| XMerge (n : Z) | XAnchor | XStamp | XPaste (x y w h : Z) (cs : list Z)
+| XCrop | XCropRect (x y w h : Z) | XResizeL (w h : Z)
+| XAddMask | XInverseSel | XEnumSel (k : Z) | XClrSel | XErase
+| XCenterLine | XJLineLeft | XJLineRight | XEraseRow | XEraseRowS | XEraseRowE | XEraseCol | XEraseColS | XEraseColE.
+
+(* the callback of the harness operation `enumsel k` *)
+Definition enum_cb (k : Z) (x y : Z) (c : cell) (_ : bool) : option bool :=
+  if (c_ch c =? Z.to_N k)%N then Some true else if (x + y) mod 3 =? 0 then Some false else None.
 
 Definition run_xstep (v : xenv) (s : xstep) (e : XE) : res XE :=
   match s with
@@ -77,6 +85,27 @@ Definition run_xstep (v : xenv) (s : xstep) (e : XE) : res XE :=
   | XReplFont a b => x_replace_font_usage (Z.to_N a) (Z.to_N b) e
   | XIce m => x_set_ice_mode (Z.to_N m) e
   | XPalMode m => x_set_palette_mode (env_dos v) (Z.to_N m) e
+  | XMerge n => x_merge_layer_down (Z.to_nat n) e
+  | XAnchor => x_anchor_layer e
+  | XStamp => lift_edit api_stamp_layer_down e
+  | XPaste x y w h cs => x_paste_clipboard_data (paste_layer x y w h (map dec_cell cs)) e
+  | XCrop => x_crop e
+  | XCropRect x y w h => x_crop_rect (x, y, w, h) e
+  | XResizeL w h => x_resize_buffer_layers w h e
+  | XAddMask => x_add_selection_to_mask e
+  | XInverseSel => x_inverse_selection e
+  | XEnumSel k => x_enumerate_selections (enum_cb k) e
+  | XClrSel => x_clear_selection e
+  | XErase => x_erase_selection e
+  | XCenterLine => x_center_line e
+  | XJLineLeft => x_justify_line_left e
+  | XJLineRight => x_justify_line_right e
+  | XEraseRow => x_erase_row e
+  | XEraseRowS => x_erase_row_to_start e
+  | XEraseRowE => x_erase_row_to_end e
+  | XEraseCol => x_erase_column e
+  | XEraseColS => x_erase_column_to_start e
+  | XEraseColE => x_erase_column_to_end e
   end.
 
 Definition obs_fonts (f : fonts) : list Z :=
